@@ -12,6 +12,7 @@ from . import simrules, shared
 def run(ctx):
     repo = ctx.repo
     simrules.unsigned_digit_arrays_rule(ctx, 'C02.o')
+    simrules.confusion_read_write_rule(ctx, 'C02.p')
     ctx.decided += [
         'C02.a sample() of every state representation is side-effect free',
         'C02.b copy() duplicates every field mutated in place (CH form, tableau, buffered state vector / density matrix, classical data, simulation states)',
